@@ -42,15 +42,18 @@ Init == /\ tid \in 1..Len(Traces)
         /\ TLCSet(tid, 1)
 
 \* ---- does the model state agree with the projected state the recorder attached to the line?
+\* (a death injected in the middle of a callback is recorded at a system-call boundary, where silent
+\*  assignments of the running segment are already visible: only the kernel table is compared there)
 StateOK(t, ln) ==
   "s" \in DOMAIN ln =>
      LET o == ln.s IN
-     /\ o.slot = t.slot /\ o.stopping = t.stopping /\ o.restarting = t.restarting
-     /\ Len(o.w) = NW(t)
-     /\ \A i \in 1..NW(t) :
-          /\ o.w[i].st = t.ws[i].st /\ o.w[i].np = t.ws[i].np
-          /\ o.w[i].pr = [j \in 1..Len(t.ws[i].pr) |->
-                            <<t.ws[i].pr[j].p, t.ws[i].pr[j].wid, IF t.k[t.ws[i].pr[j].p].stp THEN 1 ELSE 0>>]
+     /\ (ln.k \in {"die", "sigdeath"} /\ ln.cb = 1) \/
+        /\ o.slot = t.slot /\ o.stopping = t.stopping /\ o.restarting = t.restarting
+        /\ Len(o.w) = NW(t)
+        /\ \A i \in 1..NW(t) :
+             /\ o.w[i].st = t.ws[i].st /\ o.w[i].np = t.ws[i].np
+             /\ o.w[i].pr = [j \in 1..Len(t.ws[i].pr) |->
+                               <<t.ws[i].pr[j].p, t.ws[i].pr[j].wid, IF t.k[t.ws[i].pr[j].p].stp THEN 1 ELSE 0>>]
      /\ Len(o.k) = NP(t)
      /\ \A p \in 1..NP(t) : o.k[p][2] = t.k[p].st /\ o.k[p][3] = t.k[p].ws /\ o.k[p][4] = t.k[p].par
 
@@ -80,6 +83,7 @@ Next ==
         /\ \/ /\ s.cur # <<>>
               /\ \/ \E ob \in BOOLEAN : LET t == RunTop(s, ob) IN Consume(t) \/ Silent(t)
                  \/ ln.k = "die" /\ ln.p \in 1..NP(s) /\ s.k[ln.p].st = "run" /\ Consume(Die(s, ln.p, ln.a))
+                 \/ ln.k = "sigdeath" /\ ln.p \in Dying(s) /\ Consume(SigDeath(s, ln.p))
            \/ /\ s.cur = <<>> /\ s.rq # <<>>
               /\ LET t == RunCb(s) IN Consume(t) \/ Silent(t)
            \/ /\ s.cur = <<>> /\ s.rq = <<>>
@@ -88,7 +92,7 @@ Next ==
                  \/ CanPeriodicEarly(s) /\ Silent(PeriodicEarly(s))
            \/ /\ s.cur = <<>>
               /\ \/ ln.k = "boot" /\ ~s.booted /\ Consume(Boot(s))
-                 \/ ln.k = "tick" /\ s.rq = <<>> /\ HasDeadline(s)
+                 \/ ln.k = "tick" /\ HasDeadline(s)
                       /\ LET t == Tick(s) IN t.now = Tk(ln.t) /\ Consume(t)
                  \/ ln.k = "req" /\ ~ln.q.raw /\ Consume(Request(s, ReqOf(ln), ln.x))
                  \/ ln.k = "die" /\ ln.p \in 1..NP(s) /\ s.k[ln.p].st = "run" /\ Consume(Die(s, ln.p, ln.a))
@@ -96,6 +100,7 @@ Next ==
                  \/ ln.k = "fork" /\ ln.a \in 1..NP(s) /\ s.k[ln.a].st = "run" /\ ln.p = NP(s) + 1
                       /\ \E ob \in BOOLEAN : Consume(Fork(s, ln.a, ob))
                  \/ ln.k = "dsig" /\ Consume(DaemonSignal(s, ln.a))
+                 \/ ln.k = "spawnfault" /\ Consume(AddFault(s, ln.r))
                  \/ ln.k \in {"probe", "end"} /\ Consume(EnvLine(s, Line(ln.k, "", 0, 0, "", "")))
 
 Spec == Init /\ [][Next]_tvars
